@@ -253,6 +253,14 @@ def check_point(cls, spec, o, res):
         return out
     first = snapshot()
     second = snapshot()
+    # every other public attribute / property the response class offers is read once in between (class-specific
+    # accessors included): reading is reading - what the object, or its class, says afterwards must not change
+    for nm in dir(type(r)):
+        if not nm.startswith("_"):
+            try:
+                getattr(r, nm)
+            except Exception:
+                pass
     third = snapshot()
     if not (first == second == third) or (first[0][1] == "v") != (val[0] == "v") or (first[0][1] == "x" and first[0][2] != val[1]):
         add_violation(res, f"C06:{cname}:reread-differs:{okind}",
